@@ -627,6 +627,10 @@ package mux
 //@   callsonly [C13] slices.IndexFunc, slices.Delete
 //@   atcall slices.Delete [C13] same-position: callresult("slices.IndexFunc", 1, 0) >= 0 && arg1 == callresult("slices.IndexFunc", 1, 0) && arg2 == arg1 + 1
 //@   ensures [C13] pairs-kept: len(g.matchers) == len(g.routers)
+//@   ensures [C13] order-kept: callresult("slices.IndexFunc", 1, 0) >= 0 ==> len(g.routers) == old(len(g.routers)) - 1 &&
+//@        (forall k int :: 0 <= k && k < len(g.routers) ==> g.routers[k] == old(g.routers[(k < callresult("slices.IndexFunc", 1, 0)) ? k : k + 1]) &&
+//@           g.matchers[k] == old(g.matchers[(k < callresult("slices.IndexFunc", 1, 0)) ? k : k + 1]))
+//@   ensures [C13] absent-unchanged: callresult("slices.IndexFunc", 1, 0) < 0 ==> g.routers == old(g.routers) && g.matchers == old(g.matchers)
 //
 //@ fn Group.Add
 //@   maypanic
